@@ -340,11 +340,14 @@ class ForwardScheduler(IScheduler):
                 if is_leaf:
                     left_hours = max(_task.estimate - _task.spent, 0)
                     start = max(_task.start, datetime.now())
+                    # End encodes used capacity of last work day from midnight,
+                    # so for a start fixed late in the day it can fall before the start
                     _task.end = max(
                         self.__shift_by_resource_usage_and_calendar(
                             resource, resource_usage, start, _task, left_hours
                         ),
-                        datetime.now()
+                        datetime.now(),
+                        _task.start
                     )
                 else:
                     _task.end = max([t.end for t in _task.children if t.end is not None])
